@@ -9,6 +9,7 @@ import (
 	"encoding/json"
 	"flag"
 	"fmt"
+	"io"
 	"os"
 	"path/filepath"
 	"runtime"
@@ -19,6 +20,8 @@ import (
 	"sync"
 	"sync/atomic"
 	"time"
+
+	"github.com/sirupsen/logrus"
 )
 
 const Root = "/verif"
@@ -73,6 +76,7 @@ func Main(id, level string, body func(r *Run)) {
 	tier := flag.String("tier", os.Getenv("VERIF_TIER"), "quick|thorough")
 	replay := flag.String("replay", "", "replay file")
 	flag.Parse()
+	logrus.SetOutput(io.Discard) // the library logs warnings on scripted faults; they are not results
 	if *tier == "" {
 		*tier = "quick"
 	}
